@@ -53,6 +53,9 @@ M = {
     "symbolic-dims-stripped-when-many-inputs": (["C03"], [("src/spox/_public.py",
         "    return model_proto\n",
         "    if len(model_proto.graph.input) > 3:\n        for _i in model_proto.graph.input:\n            for _d in _i.type.tensor_type.shape.dim:\n                _d.ClearField('dim_param')\n    return model_proto\n")]),
+    "zero-dim-treated-as-unknown": (["C03"], [("src/spox/_shape.py",
+        "        if isinstance(value, int):\n            return Constant(value)\n        elif isinstance(value, str):\n            return Unknown(value)\n        elif value is None:",
+        "        if isinstance(value, int) and value:\n            return Constant(value)\n        elif isinstance(value, str):\n            return Unknown(value)\n        elif not value:")]),
     # ---- C12
     # ---- refactorings of internals the harness looks at, combined with a real fault
     "refactor-manager-renamed-no-finally": (["C12"], [
